@@ -27,12 +27,10 @@ def run_one(prop: str, tier: str, repo: str | None, quiet: bool = False) -> int:
         except report.MissingConstruct:
             pass    # the failing obligation is filed; report it (exit 1) instead of evaluating the remaining rules over nothing
         except AnalysisError as e:
-            if str(e).startswith("anchor ") or "not found" in str(e):
-                # an anchor function / class / module of the clause is gone from the tree: same treatment
-                ctx.ob(0, "ANCHOR", f"the code this clause is decided on is present: {e}", False, construct=f"missing: {e}"[:200],
-                       detail="the rule has nothing to be evaluated on; without the construct it would pass vacuously")
-            else:
-                raise
+            # an anchor function / class / table of the clause is gone from the tree, or no longer has the shape from which the rule reads it:
+            # same treatment (a tree that cannot even be parsed fails earlier, in Program(), and stays an analysis error)
+            ctx.ob(0, "ANCHOR", f"the code this clause is decided on is present: {e}", False, construct=f"missing: {e}"[:200],
+                   detail="the rule has nothing to be evaluated on; without the construct it would pass vacuously")
         extra = {}
         if tier == "thorough":
             from . import mutate
